@@ -82,6 +82,20 @@ class Gen:
         digits = tuple(int(ch) for ch in str(c))
         return D((sign, digits, e))
 
+    #: probability that a date-time / time value carries a non-UTC fixed offset (whole and fractional hours,
+    #: both signs, named or not); 0 keeps every value in UTC
+    p_tz = 0.0
+    OFFSETS = [-720, -570, -210, -300, -30, -60, 60, 330, 345, 525, 765, 840, 30, -690, 0]
+
+    def tz(self):
+        if not self.p_tz or self.rng.random() >= self.p_tz:
+            return self.UTC
+        rng = self.rng
+        off = rng.choice(self.OFFSETS) if rng.random() < 0.7 else rng.randrange(-720, 841, 15)
+        td = datetime.timedelta(minutes=off)
+        name = rng.choice([None, "EST", "NST", "X"])
+        return datetime.timezone(td) if name is None else datetime.timezone(td, name)
+
     def dt(self):
         rng = self.rng
         y = rng.choice([1900, 1999, 2000, 2004, 2020, 2024, 2100, 2199, rng.randint(1900, 2200)])
@@ -93,12 +107,12 @@ class Gen:
                 d = 28
         ms = rng.choice([0, 0, 1, 999, rng.randint(0, 999)])
         return datetime.datetime(y, m, d, rng.randint(0, 23), rng.randint(0, 59), rng.randint(0, 59), ms * 1000,
-                                 tzinfo=self.UTC)
+                                 tzinfo=self.tz())
 
     def tm(self):
         rng = self.rng
         return datetime.time(rng.randint(0, 23), rng.randint(0, 59), rng.randint(0, 59),
-                             rng.choice([0, 1, 999, rng.randint(0, 999)]) * 1000, tzinfo=self.UTC)
+                             rng.choice([0, 1, 999, rng.randint(0, 999)]) * 1000, tzinfo=self.tz())
 
     def value(self, k):
         kind = k["k"]
